@@ -686,6 +686,11 @@ func (s *programState) receiveFrom(destination parser.Destination, amount *big.I
 				break
 			}
 
+			// a negative cap counts as zero
+			if cap.Sign() < 0 {
+				cap = big.NewInt(0)
+			}
+
 			err = handler(destinationClause.To, utils.MinBigInt(cap, remainingAmount))
 			if err != nil {
 				return err
